@@ -92,6 +92,16 @@ def check(ctx, replay=None):
     # 3. ungated concurrent run under the race detector
     for k in range(12 if th else 2):
         rc, rep, races, err = run_json(ctx, [race_bin, "-mode", "conc", "-n", "16", "-rounds", "120" if th else "25"], env={"GORACE": "halt_on_error=0 exitcode=0"})
+        if rep is None and (races or ("panic:" in err and "github.com/elastic/go-seccomp-bpf." in err.split("panic:", 1)[1][:3000])):
+            # the run did not get to its report: the race detector spoke before, or the process was brought down by a panic below the
+            # library's own frames (a goroutine's panic cannot be recovered by the caller) - both are observations of the real code
+            if races:
+                i = err.find("WARNING: DATA RACE")
+                viol("the race detector reported %d data race(s) between concurrent compilations / lookups / text conversions (the run then died)" % races, err[i:i + 1800])
+            else:
+                i = err.find("panic:")
+                viol("concurrent compilations brought the process down: a panic in the library's frames outside any caller's reach", err[i:i + 1800])
+            continue
         if rep is None:
             raise vlib.Machinery("detrace conc failed: " + err[-1500:])
         ctx.cov["evaluations"] += rep["checked"]
@@ -110,7 +120,9 @@ def check(ctx, replay=None):
         # the same binary in processes whose surroundings differ: environment variables that tools leave exported (a cross-compiling
         # shell's GOARCH/GOOS, locale, time zone, scheduler settings) and the working directory are not inputs of a compilation
         env = PROC_ENVS[(k // 2) % len(PROC_ENVS)]
-        rc, rep, races, err = run_json(ctx, [plain if k % 8 else race_bin, "-mode", "digest"], env=env, cwd="/" if k % 3 == 0 else None)
+        # ... nor is the execution domain (every sixth process runs under `setarch i686`: uname(2) reports a 32-bit machine)
+        wrap = ["setarch", "i686"] if (k % 6 == 5 and shutil.which("setarch")) else []
+        rc, rep, races, err = run_json(ctx, wrap + [plain if k % 8 else race_bin, "-mode", "digest"], env=env, cwd="/" if k % 3 == 0 else None)
         if rep is None:
             raise vlib.Machinery("detrace digest failed: " + err[-1500:])
         digs.add(rep["digest"])
